@@ -60,13 +60,13 @@ def check_linear(rep, p, En, real) -> None:
             return
         for (a, b) in ((0, 1), (2, 3)):
             d = M6[a, a] * M6[b, b] - M6[a, b] * M6[b, a]
-            if abs(d - En / Eout) > 1e-9 * nrm * nrm:
+            if not abs(d - En / Eout) <= 1e-9 * nrm * nrm:
                 rep.fail("falsifier", f"C03|Cavity.transfer_map|area-ratio",
                          f"active cavity: det of ({a},{b}) block = {d!r}, E_in/E_out = {En / Eout!r}",
                          {"kind": "map", "params": p, "energy": En, "block": [a, b], "det": d, "expected": En / Eout})
         return
     d = symp_defect(M6)
-    if d > 1e-9 * nrm * nrm:
+    if not d <= 1e-9 * nrm * nrm:
         rep.fail("falsifier", f"C03|{cls}.transfer_map|not-symplectic",
                  f"{cls}.transfer_map: |M^T S6 M - S6| = {d:.3e}",
                  {"kind": "map", "params": p, "energy": En, "defect": d})
